@@ -61,8 +61,9 @@ class C18(Prop):
                 ] + super().corpus()
 
     def finding_predicates(self):
-        # D19: the pinned algorithm itself (as modelled in Lean, output-identical to the real function) misses the
-        # optimum; a changed implementation no longer agrees with the model and is reported
+        # D19: the pinned algorithm itself (as modelled in Lean) misses the optimum on this input in exactly this way
+        # (same number of axes / None as the model of the pinned search); an implementation that fails on an input
+        # where the pinned search does not, or fails differently, is reported
         return {"C18/pinned-dfs-misses-optimum":
                 lambda p: p.site in ("brute/none", "brute/minimum") and p.detail.get("model_agrees") is True}
 
@@ -162,10 +163,15 @@ class C18(Prop):
         for ((k, r), rep), mrep in zip(zip(obs["brute"].items(), replies[2:2 + nk]), models):
             k = int(k)
             # statement-faithful Lean model of the pinned depth-first search (exact output incl. CPython set order)
-            agrees = r[0] == "ok" and r[1] == mrep["axes"]
+            # what the property observes is the NUMBER of axes (or None); which of several equally small
+            # partitions is returned depends on enumeration order and is drift, not a broken correspondence
+            size = lambda x: None if x is None else (len(x) if isinstance(x, list) else "?")
+            agrees = r[0] == "ok" and size(r[1]) == size(mrep["axes"])
             if not agrees:
                 out.append(Problem("disagreement", case, f"k={k}: model of the brute-force search gives {mrep['axes']}, "
                                    f"implementation {r}", "model/bf"))
+            elif r[1] != mrep["axes"]:
+                self.count("bf-witness-drift")
             _mark = len(out)
             if r[0] != "ok" or r[1] == "malformed":
                 P(f"k_alternative_partition_brut_force(k={k}) failed: {r}", "brute/call")
